@@ -67,11 +67,27 @@ def readMany (f : InStream → α × InStream) : Nat → InStream → List α ×
   | 0, s => ([], s)
   | n + 1, s => let (a, s1) := f s; let (as, s2) := readMany f n s1; (a :: as, s2)
 
+/-! ### sequential readers as composable steps (so that "a reader only moves forward" is compositional) -/
+
+/-- a reading step: consumes from the stream, may throw -/
+abbrev SR (α : Type) := InStream → RRes α
+
+def SR.pure (a : α) : SR α := fun s => .ok (a, s)
+def SR.bind (m : SR α) (f : α → SR β) : SR β := fun s =>
+  match m s with
+  | .ok (a, s') => f a s'
+  | .error e => .error e
+/-- a reader that cannot throw -/
+def SR.lift (r : InStream → α × InStream) : SR α := fun s => .ok (r s)
+def SR.throw (e : Exc) : SR α := fun _ => rthrow e
+/-- look at the stream (for tellg / remaining bytes) without consuming -/
+def SR.get : SR InStream := fun s => .ok (s, s)
+
 /-! ### Header::read -/
 
 /-- the leading-zero loop: read single bytes until a non-zero one; EOF → ios_failure -/
 def skipZeros : Nat → InStream → Nat → RRes (Nat × Nat)
-  | 0, _, _ => rthrow .ios_failure     -- fuel exhausted: cannot happen, the file is finite
+  | 0, _, _ => rub .nonTermination      -- fuel exhausted: cannot happen, the file is finite (C16.load_terminates)
   | fuel + 1, s, zeros =>
     let (v, s1) := s.readUint 1
     if s1.eof then rthrow .ios_failure
@@ -80,7 +96,7 @@ def skipZeros : Nat → InStream → Nat → RRes (Nat × Nat)
 
 def Header.read (s0 : InStream) : RRes Header :=
   let (pa0, s1) := (s0.seekBeg 0).readUint 1
-  let first : RRes (Nat × Nat) := if pa0 ≠ 0 then .ok ((pa0, 0), s1) else skipZeros (s0.len + 2) s1 0
+  let first : RRes (Nat × Nat) := if pa0 ≠ 0 then .ok ((pa0, 0), s1) else skipZeros (s1.rest.length + 1) s1 0
   match first with
   | .error e => .error e
   | .ok ((pa, zeros), s2) =>
@@ -127,73 +143,75 @@ def cellString (cell : Bytes) : Bytes := rtrim (cell.filter (· != 0))
 def nextPos (tell : Int) (offsetNext : Nat) : Int :=
   if offsetNext = 0 then 0 else u64ToI32 (intToU64 (tell + offsetNext - 2))
 
+/-- element type from the type byte -/
+def ptypeOf (len : Int) : Option PType :=
+  if len = -1 then some .char else if len = 1 then some .byte
+  else if len = 2 then some .int else if len = 4 then some .float else none
+
+/-- the size check of `Parameter::read`, dimension by dimension: `none` = "larger than the file" -/
+def sizeOk (remaining : Nat) (firstIsLength : Bool) : List Nat → Nat → Nat → Nat → Option Nat
+  | [], _, _, nValues => some nValues
+  | d :: rest, i, nBytes, nValues =>
+    let nBytes' := if nBytes ≠ 0 then u64 (nBytes * d) else nBytes
+    let nValues' := if nValues ≠ 0 ∧ (i > 0 ∨ !firstIsLength) then u64 (nValues * d) else nValues
+    if nBytes' > remaining ∨ nValues' > remaining + 0xFFFF then none
+    else sizeOk remaining firstIsLength rest (i + 1) nBytes' nValues'
+
+/-- the values of a parameter: `dims.prod` elements of the announced type -/
+def readValues (ty : PType) (dims : List Nat) (p0 : Param) : SR Param :=
+  match ty with
+  | .char => SR.lift fun s =>
+      let (raw, s') := s.read dims.prod
+      if dims.length = 1 then ({ p0 with strs := [cellString raw] }, s')
+      else ({ p0 with strs := (chunks (dims.headD 0) (dims.drop 1).prod raw).map cellString }, s')
+  | .byte => SR.lift fun s => let (v, s') := readMany (fun s => s.readInt 1) dims.prod s; ({ p0 with ints := v }, s')
+  | .int => SR.lift fun s => let (v, s') := readMany (fun s => s.readInt 2) dims.prod s; ({ p0 with ints := v }, s')
+  | .float => SR.lift fun s => let (v, s') := readMany InStream.readFloat dims.prod s; ({ p0 with floats := v }, s')
+  | .none => SR.pure p0
+
 /-- `Parameter::read(file, nbCharInName)`; returns the parameter and `nextParamByteInFile`. -/
-def Param.read (s0 : InStream) (nbCharInName : Int) : RRes (Param × Int) :=
-  let (name, s1) := s0.readString nbCharInName.natAbs
-  let (offsetNext, s2) := s1.readUint 2
-  let next := nextPos s2.tell offsetNext
-  let (len, s3) := s2.readInt 1
-  let ty? : Option PType :=
-    if len = -1 then some .char else if len = 1 then some .byte
-    else if len = 2 then some .int else if len = 4 then some .float else none
-  match ty? with
-  | none => rthrow .ios_failure
+def Param.read (nbCharInName : Int) : SR (Param × Int) :=
+  SR.bind (SR.lift fun s => s.readString nbCharInName.natAbs) fun name =>
+  SR.bind (SR.lift fun s => s.readUint 2) fun offsetNext =>
+  SR.bind SR.get fun s2 =>
+  SR.bind (SR.lift fun s => s.readInt 1) fun len =>
+  match ptypeOf len with
+  | none => SR.throw .ios_failure
   | some ty =>
-  let (nDim, s4) := s3.readUint 1
-  let (dims, s5) : List Nat × InStream :=
-    if nDim = 0 then ([1], s4) else readMany (fun s => s.readUint 1) nDim s4
-  let remaining := s5.remaining
-  -- the size check: an empty shape has nothing to read; otherwise, dimension by dimension
+  SR.bind (SR.lift fun s => s.readUint 1) fun nDim =>
+  SR.bind (if nDim = 0 then SR.pure [1] else SR.lift (readMany (fun s => s.readUint 1) nDim)) fun dims =>
+  SR.bind SR.get fun s5 =>
   let firstIsLength : Bool := ty == .char && decide (dims.length > 1)
   let nBytes0 : Nat := if dims.any (· == 0) then 0 else len.natAbs
   let nValues0 : Nat :=
     if (enum dims).any (fun (i, d) => d == 0 && (decide (i > 0) || !firstIsLength)) then 0 else 1
-  let rec sizeOk (ds : List Nat) (i : Nat) (nBytes nValues : Nat) : Option Nat :=
-    match ds with
-    | [] => some nValues
-    | d :: rest =>
-      let nBytes' := if nBytes ≠ 0 then u64 (nBytes * d) else nBytes
-      let nValues' := if nValues ≠ 0 ∧ (i > 0 ∨ !firstIsLength) then u64 (nValues * d) else nValues
-      if nBytes' > remaining ∨ nValues' > remaining + 0xFFFF then none
-      else sizeOk rest (i + 1) nBytes' nValues'
-  match sizeOk dims 0 nBytes0 nValues0 with
-  | none => rthrow .ios_failure
+  match sizeOk s5.remaining firstIsLength dims 0 nBytes0 nValues0 with
+  | none => SR.throw .ios_failure
   | some nValues =>
   let p0 : Param := { name := name, locked := nbCharInName < 0, type := ty, dims := dims }
-  let (p1, s6) : Param × InStream :=
-    if nValues = 0 then (p0, s5)
-    else match ty with
-      | .char =>
-        let (raw, s') := s5.read dims.prod
-        if dims.length = 1 then ({ p0 with strs := [cellString raw] }, s')
-        else ({ p0 with strs := (chunks (dims.headD 0) (dims.drop 1).prod raw).map cellString }, s')
-      | .byte => let (v, s') := readMany (fun s => s.readInt 1) dims.prod s5; ({ p0 with ints := v }, s')
-      | .int => let (v, s') := readMany (fun s => s.readInt 2) dims.prod s5; ({ p0 with ints := v }, s')
-      | .float => let (v, s') := readMany InStream.readFloat dims.prod s5; ({ p0 with floats := v }, s')
-      | .none => (p0, s5)
-  let (dl, s7) := s6.readUint 1
-  let (p2, s8) : Param × InStream :=
-    if dl ≠ 0 then let (d, s') := s7.readString dl; ({ p1 with desc := d }, s') else (p1, s7)
-  .ok ((p2, next), s8)
+  SR.bind (if nValues = 0 then SR.pure p0 else readValues ty dims p0) fun p1 =>
+  SR.bind (SR.lift fun s => s.readUint 1) fun dl =>
+  SR.bind (if dl ≠ 0 then SR.lift (fun s => let (d, s') := s.readString dl; ({ p1 with desc := d }, s')) else SR.pure p1) fun p2 =>
+  SR.pure (p2, nextPos s2.tell offsetNext)
 
 /-- `Group::read(file, nbCharInName)` on the existing group object `g` -/
-def Group.read (g : Group) (s0 : InStream) (nbCharInName : Int) : Group × Int × InStream :=
-  let (name, s1) := s0.readString nbCharInName.natAbs
-  let (offsetNext, s2) := s1.readUint 2
-  let next := nextPos s2.tell offsetNext
-  let (dl, s3) := s2.readUint 1
+def Group.read (g : Group) (nbCharInName : Int) : SR (Group × Int) :=
+  SR.bind (SR.lift fun s => s.readString nbCharInName.natAbs) fun name =>
+  SR.bind (SR.lift fun s => s.readUint 2) fun offsetNext =>
+  SR.bind SR.get fun s2 =>
+  SR.bind (SR.lift fun s => s.readUint 1) fun dl =>
   let g1 := { g with name := name, locked := nbCharInName < 0 }
-  if dl ≠ 0 then let (d, s4) := s3.readString dl; ({ g1 with desc := d }, next, s4)
-  else (g1, next, s3)
+  SR.bind (if dl ≠ 0 then SR.lift (fun s => let (d, s') := s.readString dl; ({ g1 with desc := d }, s')) else SR.pure g1) fun g2 =>
+  SR.pure (g2, nextPos s2.tell offsetNext)
 
 /-- make sure there are at least `n` groups (placeholders for unused ids) -/
 def ensureGroups (gs : List Group) (n : Nat) : List Group := gs ++ List.replicate (n - gs.length) ({} : Group)
 
-/-- the record loop of `Parameters::Parameters(c3d&)`. `fuel` bounds the number of iterations;
-    each iteration consumes at least two bytes or ends the loop, so `file.length + 2` is enough
-    (proved in Proofs/ReadTermination). -/
+/-- the record loop of `Parameters::Parameters(c3d&)`. `fuel` bounds the number of iterations; running
+    out of it is marked `nonTermination` and `C16.load_terminates` proves it never happens with the fuel
+    `readParameters` supplies (every iteration that continues has consumed input). -/
 def readRecords : Nat → InStream → Int → List Group → RRes (List Group)
-  | 0, _, _, _ => rthrow .ios_failure
+  | 0, _, _, _ => rub .nonTermination
   | fuel + 1, s, next, gs =>
     if next = 0 then .ok (gs, s)
     else if s.tell ≠ next then rthrow .ios_failure
@@ -207,13 +225,14 @@ def readRecords : Nat → InStream → Int → List Group → RRes (List Group)
           match gs1[id.natAbs - 1]? with
           | none => rthrow .out_of_range
           | some g =>
-            let (g', nx, s3) := g.read s2 n
-            readRecords fuel s3 nx (gs1.set (id.natAbs - 1) g')
+            match g.read n s2 with
+            | .error e => .error e
+            | .ok ((g', nx), s3) => readRecords fuel s3 nx (gs1.set (id.natAbs - 1) g')
         else
           match (if id = 0 then none else gs1[id.natAbs - 1]?) with
           | none => rthrow .out_of_range
           | some g =>
-            match Param.read s2 n with
+            match Param.read n s2 with
             | .error e => .error e
             | .ok ((p, nx), s3) =>
               match g.addParam p with
@@ -221,18 +240,24 @@ def readRecords : Nat → InStream → Int → List Group → RRes (List Group)
               | .throw e => rthrow e
               | .ub k => rub k
 
-def readParameters (s0 : InStream) (h : Header) : RRes (PHeader × List Group) :=
+/-- the four bytes heading the parameter section, with the Qualisys patch (0, 0 → 1, 0x50) -/
+def readPrologue (s0 : InStream) (h : Header) : PHeader × InStream :=
   let s1 := s0.seekBeg (u64ToI32 (u64 (512 * subU64 h.paramAddr 1 + h.zeros)))
   let (start, s2) := s1.readUint 1
   let (ck, s3) := s2.readUint 1
   let (nb, s4) := s3.readUint 1
   let (proc, s5) := s4.readUint 1
-  let (start', ck') := if ck = 0 ∧ start = 0 then (1, 0x50) else (start, ck)
-  if ck' ≠ 0x50 then rthrow .ios_failure else
-  let next : Int := s5.tell + u64ToI32 start' - 1
-  match readRecords (s0.len + 2) s5 next [] with
-  | .error e => .error e
-  | .ok (gs, s6) => .ok (({ start := start', checksum := ck', nbBlocks := nb, processor := proc }, gs), s6)
+  let start' : Nat := if ck = 0 ∧ start = 0 then 1 else start
+  let ck' : Nat := if ck = 0 ∧ start = 0 then 0x50 else ck
+  ({ start := start', checksum := ck', nbBlocks := nb, processor := proc }, s5)
+
+def readParameters (s0 : InStream) (h : Header) : RRes (PHeader × List Group) :=
+  match readPrologue s0 h with
+  | (ph, s5) =>
+    if ph.checksum ≠ 0x50 then rthrow .ios_failure else
+    match readRecords (2 * s5.rest.length + 2) s5 (s5.tell + u64ToI32 ph.start - 1) [] with
+    | .error e => .error e
+    | .ok (gs, s6) => .ok ((ph, gs), s6)
 
 /-! ### Data -/
 
